@@ -320,12 +320,17 @@ func check(c Case) error {
 		}
 	}
 	for pi, perm := range c.Perms {
-		// build all, then render all
+		// build all, then render all; the caller uses ONE map object for the ImportNames calls of all
+		// the Files it builds (emptied and refilled per call): a File's names are those it was given
 		jobs := fresh(false)
 		files := make([]*jen.File, n)
-		for _, i := range perm {
-			files[i%n] = (&recipe.Builder{}).File(jobs[i%n])
-		}
+		func() {
+			defer func() { recipe.CallerTable = nil }()
+			recipe.CallerTable = map[string]string{}
+			for _, i := range perm {
+				files[i%n] = (&recipe.Builder{}).File(jobs[i%n])
+			}
+		}()
 		for k := len(perm) - 1; k >= 0; k-- {
 			i := perm[k] % n
 			if err := cmp(fmt.Sprintf("permutation %d: build all, render all (reverse)", pi), i, renderFile(files[i])); err != nil {
@@ -353,7 +358,10 @@ func genJob(t *rapid.T) *recipe.File {
 }
 
 func genJob0(t *rapid.T) *recipe.File {
-	switch rapid.IntRange(0, 3).Draw(t, "jobkind") {
+	switch rapid.IntRange(0, 4).Draw(t, "jobkind") {
+	case 4: // large, mostly unused ImportNames tables
+		sc := imps.Gen(imps.Profile{MaxPaths: 6, Std: true, Anon: true, BigHints: true})(t)
+		return &sc.File
 	case 0:
 		sc := imps.Gen(imps.Profile{MaxPaths: 8, Compete: true, Std: true, Anon: true, Dots: 1})(t)
 		return &sc.File
